@@ -11,4 +11,6 @@ python3-vt -c "import z3; print('z3', z3.get_version_string())"
 test -x /usr/bin/z3 && /usr/bin/z3 --version
 chmod +x check standin/optimathsat 2>/dev/null || true
 mkdir -p evidence out
+# the trusted base (reference interpreter) against z3 bit-vector semantics
+python3-vt vf/selftest_evm.py 300
 echo "setup ok"
